@@ -167,6 +167,145 @@ def parseListingWith (p : List Char → Option LLine) : List (List Char) → Opt
 def parseListing (r : Nat) : List (List Char) → Option (Nat × List Nat) :=
   parseListingWith (parseLine r)
 
+/-! ## Word-listed and word-addressed targets
+
+`doc/assembler-usage.md`, "Format of the Listing": *"Depending on the processor type and actual
+segment the values are formatted either as bytes or 16/32-bit-words.  If more code is generated than
+the field can take, additional lines will be generated, in which case only this field is used."*
+A numeral of the `<code>` field therefore stands for 1, 2 or 4 bytes, and its width (the number of
+digits the largest value of that size needs in the list radix) tells which.
+
+`doc/file-formats.md`: a data record's start address *"refers to the granularity"* (address units of
+`g` bytes), its length is in bytes; so a listed value of `n` bytes covers `n / g` address units.
+`doc/modifying-as.md` (`TurnWords`): the code file holds a value that is wider than a byte in the
+byte order of the target processor (big endian for Motorola-style targets, little endian otherwise);
+`be` below is that documented byte order of the target.
+-/
+
+/-- digits the largest value of `n` bytes needs in radix `r` -/
+def unitDigits (r n : Nat) : Nat := numDigitsAux r 64 (256 ^ n - 1)
+
+/-- size in bytes of a listed numeral of `k` digits (`rw` = the list radix) -/
+def unitSize (rw k : Nat) : Option Nat :=
+  if k = unitDigits rw 4 then some 4
+  else if k = unitDigits rw 2 then some 2
+  else if k = byteDigits rw then some 1
+  else none
+
+/-- The `<code>` field in general: numerals, each followed by one blank, read greedily from the left
+as (size in bytes, value); reading stops at the first position that is not such a numeral (padding,
+source).  `rc` = radix of the numerals, `rw` = radix that determines the widths (both are the list
+radix in the documented reading); `k`/`acc` = digits read of the current numeral and their value. -/
+def parseUnits (rc rw : Nat) : List Char → Nat → Nat → List (Nat × Nat)
+  | [], _, _ => []
+  | c :: cs, k, acc =>
+    if c = ' ' then
+      match unitSize rw k with
+      | some n => (n, acc) :: parseUnits rc rw cs 0 0
+      | none => []
+    else
+      match digitVal c with
+      | some d => if d < rc then parseUnits rc rw cs (k + 1) (acc * rc + d) else []
+      | none => []
+
+/-- the `n` bytes of the value `v`, least significant byte first -/
+def leBytes : Nat → Nat → List Nat
+  | 0, _ => []
+  | n + 1, v => v % 256 :: leBytes n (v / 256)
+
+/-- the bytes the code file holds for a listed value of `n` bytes, in address order -/
+def unitBytes (be : Bool) (n v : Nat) : List Nat := if be then (leBytes n v).reverse else leBytes n v
+
+/-- number of bytes a list of listed values stands for -/
+def unitsLen : List (Nat × Nat) → Nat
+  | [] => 0
+  | u :: us => u.1 + unitsLen us
+
+/-- the code-file bytes a list of listed values stands for -/
+def unitsBytes (be : Bool) : List (Nat × Nat) → List Nat
+  | [] => []
+  | u :: us => unitBytes be u.1 u.2 ++ unitsBytes be us
+
+/-- one parsed listing line, code field as (size, value) pairs -/
+structure WLine where
+  depth : Nat
+  /-- `none`: continuation line -/
+  line : Option Nat
+  addr : Nat
+  retracted : Bool
+  units : List (Nat × Nat)
+deriving Repr, DecidableEq, Inhabited
+
+/-- `<address> <marker> ` and what follows; marker `:` or `R` (retracted) -/
+def parseAddrField (ra : Nat) (s : List Char) : Option (Nat × Bool × List Char) :=
+  match splitAt1 ' ' (skipSp s) with
+  | some (ad, rest) =>
+    match parseNum ra ad with
+    | some a =>
+      match rest with
+      | m :: sp :: field =>
+        if sp = ' ' ∧ (m = ':' ∨ m = 'R') then some (a, m == 'R', field) else none
+      | _ => none
+    | none => none
+  | none => none
+
+/-- general form (separate radices for the address numerals, the code numerals and the widths; the
+driver uses it for diagnosis) -/
+def parseLineWGen (ra rc rw : Nat) (s : List Char) : Option WLine :=
+  match parsePrefix s with
+  | none => none
+  | some (depth, rest) =>
+    let rest := skipSp rest
+    match splitAt1 '/' rest with
+    | some (ln, rest') =>
+      match parseNum 10 ln with
+      | some l =>
+        (match parseAddrField ra rest' with
+         | some (a, rt, f) => some ⟨depth, some l, a, rt, parseUnits rc rw f 0 0⟩
+         | none => none)
+      | none => none
+    | none =>
+      match parseAddrField ra rest with
+      | some (a, rt, f) => some ⟨depth, none, a, rt, parseUnits rc rw f 0 0⟩
+      | none => none
+
+/-- the documented reading: address and code in the list radix -/
+def parseLineW (r : Nat) (s : List Char) : Option WLine := parseLineWGen r r r s
+
+/-- continuation lines of a source line whose listing starts at address `start`, on a target with
+`g` bytes per address unit: a line that follows `sofar` listed bytes starts at `start + sofar / g` -/
+def parseContsW (p : List Char → Option WLine) (g : Nat) (be : Bool) (start : Nat) :
+    Nat → List (List Char) → Option (List Nat)
+  | _, [] => some []
+  | sofar, l :: ls =>
+    match p l with
+    | some ll =>
+      if ll.line = none ∧ start ≤ ll.addr ∧ (ll.addr - start) * g = sofar then
+        match parseContsW p g be start (sofar + unitsLen ll.units) ls with
+        | some bs => some (unitsBytes be ll.units ++ bs)
+        | none => none
+      else none
+    | none => none
+
+/-- one source line's listing (first line + continuation lines) on a target with `g` bytes per
+address unit and byte order `be` ↦ (address in address units, the bytes the code file must hold from
+that address on) -/
+def parseListingWWith (p : List Char → Option WLine) (g : Nat) (be : Bool) :
+    List (List Char) → Option (Nat × List Nat)
+  | [] => none
+  | l :: ls =>
+    match p l with
+    | some ll =>
+      if ll.line.isSome then
+        match parseContsW p g be ll.addr (unitsLen ll.units) ls with
+        | some bs => some (ll.addr, unitsBytes be ll.units ++ bs)
+        | none => none
+      else none
+    | none => none
+
+def parseListingW (r g : Nat) (be : Bool) : List (List Char) → Option (Nat × List Nat) :=
+  parseListingWWith (parseLineW r) g be
+
 /-! ## MAP file -/
 
 /-- `<line>:<address>` – line decimal, address hexadecimal -/
